@@ -35,6 +35,13 @@ func progFor(seed int64, tag string, pi int, cfg gen.Cfg) *Prog {
 
 func variantCfg(variant int, tier string) gen.Cfg {
 	cfg := gen.Cfg{AllowDD: variant&1 == 1, AllowEnv: variant&2 == 2}
+	switch (variant / 4) % 16 {
+	case 3:
+		cfg.MaxRep = 10 // many occurrences / long lines also in the quick tier
+	case 7:
+		cfg.Depth = 4 // deeply nested specs
+		cfg.MaxOpts = 3
+	}
 	if tier == "thorough" {
 		cfg.MaxRep = 3
 	}
